@@ -118,6 +118,9 @@ MUTANTS = [
     ("C19", "detect", "hooks.py", "    return filter_set is not None and ctx.operation is not None and not filter_set.match(ctx)", "    return filter_set is not None and ctx.operation is not None and filter_set.match(ctx)", "hook filter inverted"),
     ("C19", "detect", "hooks.py", "        for hook in self.get_all_by_name(f\"filter_{container}\"):\n            if _should_skip_hook(hook, context):\n                continue", "        for hook in self.get_all_by_name(f\"filter_{container}\"):\n            if False:\n                continue", "filter_* hooks ignore their own filters"),
     ("C19", "detect", "hooks.py", "    strategy = operation.schema.hooks.apply_to_container(strategy, container, context)\n    if hooks is not None:", "    if hooks is not None:", "schema-level hooks skipped"),
+    ("C19", "detect", "auths.py", "        if self.filter_set.match(context):\n            return self.provider.get(case, context)\n        return None", "        return self.provider.get(case, context)", "restricted auth provider applied to every operation"),
+    ("C19", "detect", "auths.py", "                provider.set(case, data, context)\n                case._has_explicit_auth = True\n                break", "                provider.set(case, data, context)\n                case._has_explicit_auth = True", "every auth provider with data is applied, the last one wins"),
+    ("C19", "detect", "auths.py", "    if auth_storage is not None:\n        auth_storage.set(case, context)\n    elif case.operation.schema.auth.is_defined:", "    if case.operation.schema.auth.is_defined:\n        case.operation.schema.auth.set(case, context)\n    elif auth_storage is not None:\n        auth_storage.set(case, context)\n    elif case.operation.schema.auth.is_defined:", "schema-level auth shadows the test's own auth"),
     # ---- C20
     ("C20", "detect", GQL, "RootType.QUERY: gql_st.queries,", "RootType.QUERY: gql_st.mutations,", "queries generated with the mutation generator"),
     ("C20", "detect", GQL, "custom_scalars = {**get_extra_scalar_strategies(), **CUSTOM_SCALARS}", "custom_scalars = {**CUSTOM_SCALARS, **get_extra_scalar_strategies()}", "built-in scalars override registered ones"),
